@@ -11,8 +11,8 @@ RULE = ('cases: nested lists/dicts (depth <= 3) holding 1-5 float Series / DataF
         '14-day grid whose indices are drawn as a family (random, nested, disjoint, overlapping blocks, with empties), NaN '
         'anywhere, mixed with distinct str / int / None objects; each collection is run through df_sync, df_reindex, df_index '
         'and a presync-decorated recording function for every policy in {ij, oj, lj, rj, explicit index (as pd.Index, Series '
-        'or dict(index=..))} x method in {None, ffill, bfill} x column policy; separately collections of bare 1-d numpy arrays '
-        'of lengths 0-6 for ij/oj/lj/rj x method, and a small malformed stream mixing arrays with Series (ValueError). '
+        'or dict(index=..))} x method in {None, ffill, bfill} x column policy; separately collections of bare 1-d and 2-d (1-3 columns) numpy arrays '
+        'of lengths 0-6 (full shape and every cell observed) for ij/oj/lj/rj x method, a stream of lj/rj joins over >= 3 series whose last/first index repeats another one, and a small malformed stream mixing arrays with Series (ValueError). '
         'Observed: container structure, index, columns, every cell, is-identity of pass-through members; compared in Coq '
         'with the model M_align evaluated by vm_compute; the oracle recomputes index / cells / columns from the property text '
         'with Python sets and linear scans. non-trivial = at least two timeseries with different, overlapping indices (or two '
@@ -24,7 +24,8 @@ EXPLANATION = ('theorems C03_* (coq/props/C03.v) hold for every nested collectio
 TRUSTED = ['modelled, not verified: pandas Index.intersection/union, Series/DataFrame.reindex (incl. method=ffill/bfill), '
            'boolean-mask row selection, DataFrame construction from a dict; numpy slicing / concatenate / full; '
            'the harness canonicalisation of pandas objects (harness/props/c03.py canon)']
-ASSUMPTIONS = ['indices are sorted, duplicate-free datetime indices; values are floats (NaN allowed)',
+ASSUMPTIONS = ['bare arrays are 1-d or 2-d float arrays (3-d arrays only survive method=None in the code: df_fillna wraps them in pd.Series)',
+               'indices are sorted, duplicate-free datetime indices; values are floats (NaN allowed)',
                'DataFrames have unique column names; containers are plain list / dict (tuples are not flattened by _list)',
                'for multi-column frames the as-of fill is row-wise: a row counts as an observation unless it is entirely NaN']
 EXHAUSTIVE = {'quick': False, 'thorough': False}
@@ -46,6 +47,8 @@ def leaves(tr):
     return [tr]
 
 def is_pdj(l): return 'S' in l or 'F' in l
+def is_arrj(l): return 'A' in l or 'A2' in l
+def arr_len(l): return len(l['A']) if 'A' in l else len(l['A2']['rows'])
 def idx_of(l): return [t for t, _ in l['S']] if 'S' in l else list(l['F']['idx'])
 
 # ------------------------------------------------------------------ Coq literals
@@ -60,6 +63,8 @@ def cq_leaf(l):
         return 'OF %s [%s]' % (cq_zl([colcode(f['cols'][i]) for i in order]), rows)
     if 'A' in l:
         return 'OA [' + '; '.join(cq_cell(v) for v in l['A']) + ']'
+    if 'A2' in l:
+        return 'OA2 %d [%s]' % (l['A2']['k'], '; '.join('[%s]' % '; '.join(cq_cell(v) for v in r) for r in l['A2']['rows']))
     if 'N' in l:
         return 'ON (%s)' % cq_cell(l['N'])
     return 'OX (%d)' % (-1 if l['k'] == 'none' else l['X'])
@@ -113,6 +118,8 @@ def build(tr, reg):
         return pd.DataFrame(data, mkidx(f['idx']), list(f['cols']))
     if 'A' in tr:
         return np.array([fl(v) for v in tr['A']], dtype=float)
+    if 'A2' in tr:
+        return np.array([[fl(v) for v in r] for r in tr['A2']['rows']], dtype=float).reshape(len(tr['A2']['rows']), tr['A2']['k'])
     if 'N' in tr:
         return fl(tr['N'])
     k = tr['k']
@@ -157,7 +164,11 @@ def canon(o, reg, cell=ccell):
         order = sorted(range(len(cols)), key=lambda i: cols[i])
         return ['F', cdays(o.index), [colcode(cols[i]) for i in order], [[cell(v) for v in o.iloc[:, i].values] for i in order]]
     if isinstance(o, np.ndarray):
-        return ['A', [cell(v) for v in o]] if o.ndim == 1 else ['A?', list(o.shape)]
+        if o.ndim == 1:
+            return ['A', [cell(v) for v in o]]
+        if o.ndim == 2:             # the full shape (rows, columns) and every cell
+            return ['A2', int(o.shape[1]), [[cell(v) for v in row] for row in o]]
+        return ['A?', [int(x) for x in o.shape]]
     if o is None:
         return ['X', -1]
     for x, i in reg:
@@ -181,6 +192,8 @@ def jcanon(tr):
         return ['F', list(f['idx']), [colcode(f['cols'][i]) for i in order], [[c(r[i]) for r in f['rows']] for i in order]]
     if 'A' in tr:
         return ['A', [c(v) for v in tr['A']]]
+    if 'A2' in tr:
+        return ['A2', tr['A2']['k'], [[c(v) for v in r] for r in tr['A2']['rows']]]
     if 'N' in tr:
         return ['N', c(tr['N'])]
     return ['X', -1 if tr['k'] == 'none' else tr['X']]
@@ -210,7 +223,7 @@ def prescribed(lvs, how):
             for x in sets: s |= x
             return ('I', sorted(s))
         return ('I', idx_of(pds[0] if h == 'l' else pds[-1]))
-    arrs = [len(l['A']) for l in lvs if 'A' in l]
+    arrs = [arr_len(l) for l in lvs if is_arrj(l)]
     if arrs and not isinstance(how, dict):
         h = how[0]
         return ('n', min(arrs) if h == 'i' else max(arrs) if h == 'o' else arrs[0] if h == 'l' else arrs[-1])
@@ -268,6 +281,16 @@ def expect_array(l, n, method):
     obs = list(enumerate(res))
     return ['A', [asof(obs, j, method, lambda v: v == 'NaN', 'NaN') for j in range(n)]]
 
+def expect_array2(l, n, method):
+    k = l['A2']['k']
+    a = [['NaN' if v is None else v for v in r] for r in l['A2']['rows']]
+    res = a[len(a) - n:] if n <= len(a) else [['NaN'] * k for _ in range(n - len(a))] + a   # rows aligned at the end, columns untouched
+    cols = []
+    for j in range(k):                                                                  # a fill method works down each column
+        obs = [(i, r[j]) for i, r in enumerate(res)]
+        cols.append([asof(obs, i, method, lambda v: v == 'NaN', 'NaN') for i in range(n)])
+    return ['A2', k, [[cols[j][i] for j in range(k)] for i in range(n)]]
+
 def expect_leaf(l, target, method, C):
     if 'S' in l and target and target[0] == 'I':
         return expect_series(l, target[1], method)
@@ -277,6 +300,8 @@ def expect_leaf(l, target, method, C):
         return expect_frame(l, l['F']['idx'], None, C)
     if 'A' in l and target and target[0] == 'n':
         return expect_array(l, target[1], method)
+    if 'A2' in l and target and target[0] == 'n':
+        return expect_array2(l, target[1], method)
     return jcanon(l)
 
 def expect_tree(tr, f):
@@ -291,8 +316,9 @@ def first_diff(exp, got, path='result'):
     if type(exp) != type(got) or (isinstance(exp, list) and (len(exp) != len(got) or (exp and isinstance(exp[0], str) and exp[0] != got[0]))):
         return '%s: expected %s got %s' % (path, json.dumps(exp)[:160], json.dumps(got)[:160])
     if isinstance(exp, list):
-        if exp and exp[0] in ('S', 'F', 'A', 'N', 'X') and exp != got:
-            names = {'S': ['kind', 'index', 'cells'], 'F': ['kind', 'index', 'columns', 'cells'], 'A': ['kind', 'cells'], 'N': ['kind', 'value'], 'X': ['kind', 'identity']}[exp[0]]
+        if exp and exp[0] in ('S', 'F', 'A', 'A2', 'N', 'X') and exp != got:
+            names = {'S': ['kind', 'index', 'cells'], 'F': ['kind', 'index', 'columns', 'cells'], 'A': ['kind', 'cells'], 'A2': ['kind', 'number of columns', 'rows'],
+                     'N': ['kind', 'value'], 'X': ['kind', 'identity']}[exp[0]]
             for nm, e, g in zip(names, exp, got):
                 if e != g:
                     return '%s: %s of %s leaf: expected %s got %s' % (path, nm, exp[0], json.dumps(e)[:160], json.dumps(g)[:160])
@@ -304,7 +330,7 @@ def first_diff(exp, got, path='result'):
     return None if exp == got else '%s: expected %r got %r' % (path, exp, got)
 
 def mixed_clash(lvs, target):
-    return bool(target and target[0] == 'I' and any('A' in l and len(l['A']) > 1 and len(l['A']) != len(target[1]) for l in lvs))
+    return bool(target and target[0] == 'I' and any(is_arrj(l) and arr_len(l) > 1 and arr_len(l) != len(target[1]) for l in lvs))
 
 def expect_presync(case):
     lvs = [l for a in case['args'] for l in leaves(a)]
@@ -436,20 +462,20 @@ def nontrivial(case, result):
         for j in range(i + 1, len(idx)):
             if idx[i] != idx[j] and idx[i] & idx[j]:
                 return True
-    arrs = {len(l['A']) for l in lvs if 'A' in l}
+    arrs = {arr_len(l) for l in lvs if is_arrj(l)}
     return len(arrs) > 1
 
 def shape(case):
     h = case['how']
-    return '%s:%s:%s' % (case['kind'] + ('-np' if any('A' in l for l in case_leaves(case)) else ''), 'explicit' if isinstance(h, dict) else h, case.get('method'))
+    return '%s:%s:%s' % (case['kind'] + ('-np2' if any('A2' in l for l in case_leaves(case)) else '-np' if any('A' in l for l in case_leaves(case)) else ''), 'explicit' if isinstance(h, dict) else h, case.get('method'))
 
 # ------------------------------------------------------------------ generation
 def rand_val(rng, pnan=0.3):
     return None if rng.random() < pnan else rng.randrange(-9, 10)
 
-def index_family(rng, k):
+def index_family(rng, k, style=None):
     """k sorted subsets of the grid: random / nested / disjoint / overlapping blocks / with empties"""
-    style = rng.choice(['random', 'random', 'nested', 'disjoint', 'blocks', 'empty', 'same'])
+    style = style or rng.choice(['random', 'random', 'nested', 'disjoint', 'blocks', 'empty', 'same', 'ends'])
     G = list(range(GRID))
     def sub(pool, p=None):
         p = rng.choice([0.3, 0.5, 0.8]) if p is None else p
@@ -474,6 +500,13 @@ def index_family(rng, k):
     if style == 'same':
         s = sub(G)
         return [list(s) for _ in range(k)]
+    if style == 'ends':            # the last index repeats an earlier one and the first repeats a later one
+        out = [sub(G) for _ in range(k)]
+        if k >= 3:
+            out[-1] = list(out[rng.randrange(0, k - 1)])
+            if rng.random() < 0.5:
+                out[0] = list(out[rng.randrange(1, k - 1)]) if k > 3 else list(out[1])
+        return out
     out = [sub(G) for _ in range(k)]
     out[rng.randrange(k)] = []
     return out
@@ -531,7 +564,13 @@ def rand_explicit(rng):
 def rand_arrays(rng):
     ids = Ids()
     k = rng.randrange(1, 5)
-    items = [{'A': [rand_val(rng, 0.3) for _ in range(rng.randrange(0, 7))]} for _ in range(k)]
+    def arr():
+        n = rng.randrange(0, 7)
+        if rng.random() < 0.45:        # 2-d array, 1-3 columns
+            kk = rng.choice([1, 2, 2, 3])
+            return {'A2': {'k': kk, 'rows': [[rand_val(rng, 0.3) for _ in range(kk)] for _ in range(n)]}}
+        return {'A': [rand_val(rng, 0.3) for _ in range(n)]}
+    items = [arr() for _ in range(k)]
     if rng.random() < 0.4:
         items.insert(rng.randrange(len(items) + 1), ids.opaque(rng))
     return nest(rng, items, rng.choice([1, 2, 3]))
@@ -557,7 +596,7 @@ def gen_cases(rng, tier):
                 cases.append({'kind': 'reindex', 'tree': tr, 'how': how, 'method': m})
     for _ in range(150 if q else 2000):                      # df_index
         tr = rand_collection(rng) if rng.random() < 0.8 else rand_arrays(rng)
-        hows = POLICIES + ([dict(rand_explicit(rng), **{'as': 'idx'})] if not any('A' in l for l in leaves(tr)) else [])
+        hows = POLICIES + ([dict(rand_explicit(rng), **{'as': 'idx'})] if not any(is_arrj(l) for l in leaves(tr)) else [])
         for how in hows:
             cases.append({'kind': 'index', 'tree': tr, 'how': how})
     for _ in range(50 if q else 700):                        # presync: recording function of 1-3 arguments
@@ -570,7 +609,14 @@ def gen_cases(rng, tier):
             for m in METHODS:
                 cases.append({'kind': 'presync', 'args': kids, 'how': how, 'method': m, 'columns': rng.choice(['ij', 'oj', 'lj', 'rj', None]),
                               'default': rng.choice([None, 0, 1])})
-    for _ in range(60 if q else 800):                        # bare numpy arrays
+    for _ in range(40 if q else 500):                        # lj / rj with >= 3 series whose last (first) index repeats another one
+        k = rng.choice([3, 3, 4, 5])
+        items = [rand_ts(rng, idx, 0.15) for idx in index_family(rng, k, 'ends')]
+        tr = nest(rng, items, rng.choice([1, 1, 2]))
+        for how in ('lj', 'rj'):
+            for m in METHODS:
+                cases.append({'kind': rng.choice(['sync', 'sync', 'reindex']), 'tree': tr, 'how': how, 'method': m, 'columns': 'ij'})
+    for _ in range(90 if q else 1200):                       # bare numpy arrays (1-d and 2-d)
         tr = rand_arrays(rng)
         for how in POLICIES:
             for m in METHODS:
@@ -608,6 +654,10 @@ def _variants(tr):
     elif 'A' in tr:
         for i in range(len(tr['A'])):
             yield {'A': tr['A'][:i] + tr['A'][i + 1:]}
+    elif 'A2' in tr:
+        rows = tr['A2']['rows']
+        for i in range(len(rows)):
+            yield {'A2': {'k': tr['A2']['k'], 'rows': rows[:i] + rows[i + 1:]}}
 
 def shrink(case):
     if case['kind'] == 'presync':
